@@ -9,7 +9,7 @@
    property names, over the models Smith/Names.v, Smith/Closure.v, Smith/Prune.v:
      unique type names  : C32_names_unique, C32_limited_string_valid, C32_limited_string_terminates
      implements closure : C32_closure_is_reachability, C32_closure_acyclic, C32_closure_acyclic_objects,
-                          C32_closure_complete_partial (+ objects)
+                          C32_closure_complete_partial (+ objects), C32_closure_fields_local
      fragment pruning   : C32_prune_exact, C32_prune_no_new_cycle, C32_prune_terminates
    and two refutations of what the closure/backfill mechanism is meant to guarantee:
      C32_closure_fields_refuted      : an inherited field does NOT always get the inherited type;
@@ -17,12 +17,14 @@
    Full statement of C32_closure_complete (design): "after backfill every object/interface lists the transitive
    closure of its interfaces and has every inherited field with the inherited type".  The first half is
    C32_closure_complete_partial; the second half is false of the faithful model (C32_closure_fields_refuted) and of
-   the code (known finding inherited-field-signature-conflict).
+   the code (known finding inherited-field-signature-conflict); what does hold is local: one backfill iteration
+   gives `name` every field of the first-wins union of its DIRECT parents (C32_closure_fields_local), so the
+   failure is exactly a disagreement between parents.
    Determinism ("the same bytes always give the same document") is immediate for the models (they are functions)
    and is checked on the implementation by the oracle (two generations per byte string). *)
 From Coq Require Import Relations.
 From ApolloVerif Require Import Base.Chars Ast.Ast Smith.Names Smith.NamesProofs Smith.Prune Smith.PruneProofs
-  Smith.Closure Smith.ClosureProofs Smith.ClosureExamples.
+  Smith.Closure Smith.ClosureProofs Smith.ClosureExamples Smith.ClosureFields.
 
 (* ---- unique type names ---- *)
 
@@ -139,6 +141,21 @@ Check C32_closure_complete_objects_partial : forall st st',
   forall name, (exists d, In d (cls_objs st) /\ cld_name d = name) ->
   forall p, In p (cl_declared (cls_objs st') name) <-> ClPath (cls_graph st) name p.
 Print Assumptions C32_closure_complete_objects_partial.
+
+(* what one backfill iteration guarantees about fields: every field of the inherited map (the first-wins union of
+   the direct parents' fields, read when `name` is reconciled) is afterwards the field `name` has under that name *)
+Theorem C32_closure_fields_local : forall is_iface ifaces defs g name defs',
+  cl_backfill_one is_iface ifaces defs g name = Some defs' ->
+  (exists d, In d defs /\ cld_name d = name) ->
+  forall pf, In pf (cl_parent_fields (cl_direct_parents g name) (if is_iface then defs else ifaces)) ->
+  cl_sig_get (cl_fields_of defs' name) (clf_name pf) = Some pf.
+Proof. exact cl_backfill_one_inherits. Qed.
+Check C32_closure_fields_local : forall is_iface ifaces defs g name defs',
+  cl_backfill_one is_iface ifaces defs g name = Some defs' ->
+  (exists d, In d defs /\ cld_name d = name) ->
+  forall pf, In pf (cl_parent_fields (cl_direct_parents g name) (if is_iface then defs else ifaces)) ->
+  cl_sig_get (cl_fields_of defs' name) (clf_name pf) = Some pf.
+Print Assumptions C32_closure_fields_local.
 
 (* "every inherited field has the inherited type" is false: A5 implements A3 { f: T! } and A1; A1 is later
    extended with f: T; the backfill gives A5 the field f: T *)
